@@ -76,11 +76,11 @@ def draw_generic_x(draw):
     return _sign(draw) * _logu(draw, -3, 2)
 
 
-def perturbation(draw, x, limit, z2zero=False):
-    """(a, b, c) of relative size 10^U(-8,-1) (relative to max(|x|, FLOOR)), random signs,
+def perturbation(draw, x, limit, z2zero=False, lo=-8.0):
+    """(a, b, c) of relative size 10^U(lo,-1), lo = -8 (relative to max(|x|, FLOOR)), random signs,
     scaled down so that |a| + |b| + |c| <= limit."""
     s = max(abs(x), FLOOR)
-    p = [_sign(draw) * s * _logu(draw, -8, -1) for _ in range(3)]
+    p = [_sign(draw) * s * _logu(draw, lo, -1) for _ in range(3)]
     if z2zero:
         p[1] = p[2] = 0.0
         if x != 0 and draw(st.integers(0, 3)) == 0:
@@ -113,7 +113,7 @@ def rho_of(tree, x):
     return exprs.Analysis(tree, x, K=4).rho_cert
 
 
-def points(draw, tree, xdraw, z2zero=False):
+def points(draw, tree, xdraw, z2zero=False, lo=-8.0):
     npts = draw(st.sampled_from([1, 1, 1, 2, 3]))
     pts = []
     for _ in range(npts):
@@ -123,7 +123,7 @@ def points(draw, tree, xdraw, z2zero=False):
             rho = rho_of(tree, x)
             if rho > 1e-7 * max(abs(x), FLOOR):
                 break
-        pts.append([x] + perturbation(draw, x, rho / 4.0, z2zero))
+        pts.append([x] + perturbation(draw, x, rho / 4.0, z2zero, lo))
     scalar = npts == 1 and draw(st.booleans())
     return pts, scalar
 
@@ -134,7 +134,12 @@ def unary_case(draw):
     via = draw(st.sampled_from(['method', 'numpy'])) if name in NP_NAMES else 'method'
     z2zero = draw(st.integers(0, 7)) == 0
     tree = ['u', name, ['x']]
-    pts, scalar = points(draw, tree, lambda: draw_x(draw, name), z2zero)
+    if name == 'arctan' and not z2zero and draw(st.integers(0, 2)) == 0:
+        # |imag2| >= 1: the only place inside a real domain where the class's logarithm meets a
+        # non-positive real part (1 - j z and 1 + j z), i.e. where the pi-correction of _arg_c is live
+        pts, scalar = points(draw, tree, lambda: _sign(draw) * _logu(draw, 1.3, 2), False, lo=-2.0)
+    else:
+        pts, scalar = points(draw, tree, lambda: draw_x(draw, name), z2zero)
     return dict(kind='unary', name=name, via=via, tree=tree, pts=pts, scalar=scalar, z2zero=z2zero)
 
 
@@ -293,7 +298,8 @@ class C12(Prop):
     title = 'Bicomplex arithmetic and elementary functions implement the holomorphic extension'
     rule = ('Kinds: unary (each of the 26 named functions, called as method or numpy ufunc; base point in '
             'the interior of the real domain with 5 % margin, tan/cot/sec/csc on 61 branches, tanh/coth also '
-            'at |x| in [300, 440]), pow (z**p, integer p in -6..8 at positive, negative and zero x; real p at '
+            'at |x| in [300, 440], arctan also at |x| in [20, 100] with perturbations 10^U(-2,-1)|x| so that '
+            '|imag2| >= 1), pow (z**p, integer p in -6..8 at positive, negative and zero x; real p at '
             'x > 0), binop (+ - * / ** in both operand orders with int / float / np.float64 / complex / '
             'np.complex128 / Bicomplex partners), tree (random programs over all of these, numpy back end), '
             'deriv (z = x + ih + jh and x + ih, h = 10^U(-4,-1) max(1,|x|)). Argument z1 = x + i a, z2 = b + i c '
@@ -309,8 +315,9 @@ class C12(Prop):
         '|z - x| <= rho_cert; both idempotent components lie within rho_cert/4 of x',
         'tolerance TOL_VALUE * eps * E with E the first-order rounding bound of nverif/oracle/idem.py '
         '(|F| + |u f\'(u)| per named function, +1 for the six inverse functions formed as log of an O(1) '
-        'quantity, exp(p log u) model for powers and division); TOL_VALUE >= 10x the worst ratio measured '
-        'over 8 seeds',
+        'quantity, products / conjugate-over-modulus inverse for integer powers and division, exp(p log u) for '
+        'other powers, second-order term in products); TOL_VALUE >= 10x the worst ratio measured over 8 quick '
+        'seeds and 2 thorough seeds (3.0)',
         'array results are compared bitwise with length-1 array results, not with 0-d results: numpy rounds '
         'the product of two np.complex128 scalars differently from the same product inside an array (pure '
         'numpy effect, 8730 of 20000 random products differ in the last bit)',
@@ -478,9 +485,8 @@ class C12(Prop):
                 (case['order'] == 'zw' and case['ptype'] == 'bicomplex' and case['w'][1] == 0)
                 or (case['order'] == 'wz' and case['ptype'] == 'bicomplex' and pts[0][1] == 0)):
             attrs['regimes'] = sorted(set(attrs['regimes']) | {'pow:0-d bicomplex exponent with imag1 == 0'})
-        if SKIP_KNOWN and ('tanh:over300' in attrs['regimes']
-                           or 'pow:0-d bicomplex exponent with imag1 == 0' in attrs['regimes']
-                           or any(r.endswith((':huge', ':tiny')) for r in attrs['regimes'])):
+        if SKIP_KNOWN and ('tanh:over300' in attrs['regimes'] or 'arctan:mixed' in attrs['regimes']
+                           or any(r.endswith((':huge', ':tiny')) for r in attrs['regimes'])):      # incl. log1p:huge
             ctx.skip('development: known defect regime skipped')
         # --- library
         libf = self._libf(case, Bicomplex)
@@ -519,6 +525,8 @@ class C12(Prop):
             ctx.count('tanh/coth argument > 300')
         if case.get('z2zero'):
             ctx.count('z2 = 0')
+        if fname == 'arctan' and kind == 'unary' and any(abs(p[2]) >= 1 for p in pts):
+            ctx.count('arctan with |imag2| >= 1 (pi-correction of _arg_c live)')
         if singles is not None and not np.array_equal(lib, singles, equal_nan=True):
             k = int(np.argmax(np.any(lib != singles, axis=1)))
             raise Violation('array-elementwise', '%s: element %d of the array result %r differs from the '
